@@ -215,10 +215,22 @@ def check(case):
                 data = data[:max(0, n - 40)] + bytes(min(n, 40))
             elif fill == "ff":
                 data = b"\xff" * n
-            o = sc.do_write(p, side, data)
+            # the caller's buffer type varies; a mutable one must come back
+            # untouched (it may be written again)
+            arg = data
+            if case.get("ptype") == "bytearray" or (
+                    case.get("ptype") == "mixed" and i % 2):
+                arg = bytearray(data)
+            o = sc.do_write(p, side, arg)
             if not o.ok:
                 return bad("write-fails:%s" % suite.kind,
                            "op %d %r -> %r" % (i, op, o), labels=labels)
+            if bytes(arg) != data:
+                return bad("write-modifies-caller-buffer:%s:%s" % (
+                    suite.kind, sc.VERNAME[v]),
+                    "op %d: the %d-byte bytearray handed to write() is %d "
+                    "bytes long afterwards" % (i, n, len(arg)),
+                    labels=labels)
             fifo[side] += data
             total[side] += n
             wrote.add(side)
@@ -266,10 +278,12 @@ def check(case):
                         if pad and pad[0] == "const" and ct == 23:
                             # the configured padding callback must be the
                             # one that shapes the records
-                            want = max(0, min(pad[1],
-                                              hard[side] - len(pt) - 1))
+                            want = pad[1]
                             got_pad = inner - len(pt) - 1
-                            if got_pad != want:
+                            # (near the limit the library's own bound for the
+                            # callback is what counts: not judged)
+                            if want <= hard[side] - len(pt) - 3 and \
+                                    got_pad != want:
                                 return bad(
                                     "padding-callback-not-applied",
                                     "settings.padding_cb asks for %d bytes "
@@ -429,6 +443,7 @@ def case_strategy(draw, big):
     d["fill"] = draw(st.sampled_from(["prg", "prg", "zeros", "lead0",
                                       "trail0", "ff"]))
     d["resume"] = draw(st.integers(0, 3)) == 0
+    d["ptype"] = draw(st.sampled_from(["bytes", "bytearray", "mixed"]))
     if draw(st.integers(0, 3)) == 0:
         d["fin"] = [draw(st.sampled_from(["c", "s"])),
                     draw(st.sampled_from([1, 16, 100, 70000])),
@@ -451,7 +466,7 @@ def explicit(tier, seed):
         d = {"suite": sid, "ver": list(v), "etm": etm,
              "c_rsl": [None, 2 ** 14 + 1, 100, 64][k % 4],
              "s_rsl": [2 ** 14 + 1, 2 ** 14 + 1, 65, None][k % 4],
-             "salt": seed % 8,
+             "salt": seed % 8, "ptype": ["bytes", "bytearray", "mixed"][k % 3],
              "ops": [["w", "c", 700], ["w", "s", 700], ["r", "c", 800, 700],
                      ["w", "c", 5], ["w", "s", 0], ["w", "s", 300],
                      ["r", "s", 3, 1], ["rs", "c", rs], ["w", "c", rs],
